@@ -16,6 +16,7 @@ from .worker import Worker, WorkerType, WorkerTerminatedError
 
 import os
 import queue
+import signal
 import logging
 import threading
 import multiprocessing as mp
@@ -23,6 +24,17 @@ import multiprocessing as mp
 from .utils import foreign_raise, classproperty, Pipe, get_logger, gettid, setproctitle, setthreadtitle
 
 logger = get_logger(__name__)
+
+
+def _resume_stopped(pid):
+    ''' A stopped (SIGSTOP) process keeps SIGTERM pending until it is continued,
+        make sure a child we have just asked to terminate is able to act on it.
+    '''
+    if hasattr(signal, 'SIGCONT'):
+        try:
+            os.kill(pid, signal.SIGCONT)
+        except OSError:
+            pass
 
 
 class ProcessWorker(Worker):
@@ -103,6 +115,7 @@ class ProcessWorker(Worker):
             if self._child.is_alive():
                 if force:
                     self._child.terminate()
+                    _resume_stopped(self._child.pid)
                     self._child.join(timeout)
                     # try:
                     #     self._comms.child_end.put((False, None))
